@@ -67,8 +67,10 @@ fn verify<S: Sch>(ctx: &Ctx<S>, op: Op, proof: &AnyProof<S>, sponge: &mut Sponge
             let v: Vec<S::F> = ctx.c.polys[..2].iter().map(|q| q.polynomial().evaluate(&ctx.z2)).collect();
             do_check::<S>(&ctx.keys.vk, &comms[..2], &ctx.z2, &v, p, sponge, Some(&mut rng as &mut dyn RngCore))
         }
-        (Op::Batch, AnyProof::Batch(p)) => do_batch_check::<S>(&ctx.keys.vk, &comms[..2], &ctx.qs, &ctx.evals, p, sponge, &mut rng),
-        (Op::Comb, AnyProof::Comb(p)) => do_check_comb::<S>(&ctx.keys.vk, &ctx.lcs, &comms[..2], &ctx.lc_qs, &ctx.lc_evals, p, sponge, &mut rng),
+        // the verifier's commitment list comes in another order than the prover's (and with the unused third
+        // commitment in front): lock-step must not depend on the order of that list
+        (Op::Batch, AnyProof::Batch(p)) => do_batch_check::<S>(&ctx.keys.vk, &[comms[2], comms[1], comms[0]], &ctx.qs, &ctx.evals, p, sponge, &mut rng),
+        (Op::Comb, AnyProof::Comb(p)) => do_check_comb::<S>(&ctx.keys.vk, &ctx.lcs, &[comms[1], comms[0]], &ctx.lc_qs, &ctx.lc_evals, p, sponge, &mut rng),
         (Op::OpenConst, AnyProof::Single(p)) => {
             let v = vec![ctx.c.polys[2].polynomial().evaluate(&ctx.z1), ctx.c.polys[0].polynomial().evaluate(&ctx.z1)];
             do_check::<S>(&ctx.keys.vk, &[comms[2], comms[0]], &ctx.z1, &v, p, sponge, Some(&mut rng as &mut dyn RngCore))
